@@ -52,6 +52,20 @@ impl std::task::Wake for L3Waker {
 
 /// Runs a future on the current simulated thread. The future lives in a quarantine cell: after
 /// it is dropped its memory is poisoned and checked for later writes at the end of the run.
+thread_local! {
+    /// what the thread simulator injected (all coroutines of an execution run on one OS thread)
+    static L3_COUNTS: std::cell::RefCell<BTreeMap<&'static str, u64>> = const { std::cell::RefCell::new(BTreeMap::new()) };
+}
+
+/// counts one injected fault / schedule feature of the current worker thread
+pub fn count(kind: &'static str) {
+    L3_COUNTS.with(|c| *c.borrow_mut().entry(kind).or_insert(0) += 1);
+}
+
+fn take_counts() -> BTreeMap<&'static str, u64> {
+    L3_COUNTS.with(|c| std::mem::take(&mut *c.borrow_mut()))
+}
+
 pub fn block_on<F: std::future::Future>(fut: F) -> F::Output {
     use std::sync::atomic::Ordering::SeqCst;
     let mut cell = crate::quarantine::QCell::new(fut, "future awaited by a simulated thread");
@@ -82,6 +96,7 @@ pub fn block_on<F: std::future::Future>(fut: F) -> F::Output {
         if spurious_left > 0 && !slot.notified.load(SeqCst) {
             // poll again without having been woken, after letting other threads run
             spurious_left -= 1;
+            count("spurious_poll");
             shuttle::thread::yield_now();
             slot.notified.store(false, SeqCst);
         } else {
@@ -90,6 +105,7 @@ pub fn block_on<F: std::future::Future>(fut: F) -> F::Output {
             }
         }
         if fresh_wakers {
+            count("waker_swap");
             generation += 1;
             slot.current.store(generation, SeqCst);
             waker = std::task::Waker::from(Arc::new(L3Waker { thread: thread.clone(), slot: slot.clone(), generation }));
@@ -293,6 +309,7 @@ impl Scheduler for SeededScheduler {
         let s_cfg_tmp = cfg.clone();
         let mut s = self.shared.lock().unwrap();
         if self.pct_depth > 0 {
+            count("pct_schedule");
             // expected length: part of the run's configuration (a running mean of the batch
             // would make a run depend on which runs its worker executed before)
             let est = cfg_get(&s_cfg_tmp, "pct_len", 200).max(8) as u64;
@@ -588,6 +605,9 @@ pub fn run_batch(def: &'static ThreadScenDef, seed: u64, first_run: u64, runs: u
                 }
                 crate::core::heartbeat_done();
                 let mut m = merged.lock().unwrap();
+                for (k, v) in take_counts() {
+                    *m.stats.faults.entry(k).or_insert(0) += v;
+                }
                 m.runs += out.runs;
                 m.nontrivial.extend(out.nontrivial);
                 m.found.extend(out.found);
